@@ -225,6 +225,12 @@ func (g *G) GenMgmtOp(cur SetModel, nNames, salSpan int, ver *int, kinds []int, 
 	case OpSetEM:
 		o.EM = g.Range(0, 5) // 0 and 5 are invalid
 	}
+	if o.Kind == OpRemove && len(o.Names) > 0 && g.Pct(25) {
+		// the same name more than once: the list still denotes a set
+		for k := g.Range(1, 2); k > 0; k-- {
+			o.Names = append(o.Names, o.Names[g.Intn(len(o.Names))])
+		}
+	}
 	return o
 }
 
